@@ -116,6 +116,16 @@ def drvStep (st : Option St) (line : String) : Option St × String :=
         | none => (st, s!"none id={id}")
       | none => (st, s!"none id={id}")
     | none => (st, "bad-op")
+  | some "enabled", some s =>
+    -- which kinds of action are enabled, `held=1`: while a makeCall sits on the full queue holding the mutex
+    match kvNat? ws "held" with
+    | some h =>
+      let held := h != 0
+      let en (a : Act) : String := if (stepHeld params held s a).isSome then "enabled" else "blocked"
+      let heldok := if s.cap ≤ s.queue.length then "true" else "false"
+      let nC := (List.range s.batches.length).countP (fun b => (stepHeld params held s (.complete b 0)).isSome)
+      (st, s!"heldok={heldok} call={en (.call .async 0)} dispatch={en (.dispatch 0 { errFlag := false, code := 0, cmd := 0, decodes := none })} sweep={en (.sweep 0)} strip={en .strip} pop={en .pop} complete={nC}")
+    | none => (st, "bad-op")
   | some "reap-end", some _ => (st, "ok")
   | some "state", some s =>
     (st, s!"counter={s.counter.toNat} pending={showNatList (sortNat (s.pending.map (·.1.toNat)))} expired={s.expired.length} queue={s.queue.length}")
